@@ -228,12 +228,13 @@ pub fn compare_traces(pred: &Pred, act: &Actual, top_ok_and_events_agree: Option
                     // the address of a new contract: derivation (C11), or leaked registry state after a failure (C02)
                     if failed_before { &["C02"] } else { &["C11"] }
                 } else if after_failure && !callee_entry && pred.funded_fail_before.get(i).copied().unwrap_or(0) > 0 {
-                    // a failed call had funds attached: they must have been returned (C05), by rollback (C02)
-                    &["C02", "C05"]
+                    // a failed call had funds attached: they must have been returned (C05), by rollback (C02);
+                    // the balance is observed through a bank query, which must show no rolled-back effect (C10)
+                    &["C02", "C05", "C10"]
                 } else if after_failure && !callee_entry {
-                    &["C02"]
+                    &["C02", "C10"]
                 } else if after_failure {
-                    &["C02", "C05"]
+                    &["C02", "C05", "C10"]
                 } else if field == "own balance at entry" && callee_entry {
                     // the balance is observed through a bank query at entry: "funds have already been
                     // moved" (C05) and "a query observes the funds it was just sent" (C10) alike
